@@ -98,6 +98,8 @@ pub struct Sim {
     pub next_val: u32,
     pub snap_struct: Vec<BTreeMap<u32, BTreeMap<Entity, BTreeSet<&'static str>>>>,
     pub snap_vals: BTreeMap<u32, BTreeMap<Entity, CompMap>>,
+    /// creation order of the snapshots (ticks may wrap; order of replication does not)
+    pub snap_seq: BTreeMap<u32, u64>,
     pub upd_sent: Vec<BTreeSet<u32>>,
     pub last_update_sent: Vec<u32>,
     pub last_u: Vec<u32>,
@@ -137,6 +139,13 @@ pub struct Sim {
     pub last_from: BTreeMap<Entity, u32>,
     /// (kind, seq, sender) of client events seen by server logic since last cleared (C06)
     pub from_log: Vec<(CK, u32, Entity)>,
+    /// the server has not yet run a frame since it was (re)started
+    pub need_first_tick: bool,
+    /// amount the next manual tick advances the server tick by
+    pub next_jump: u32,
+    /// ticks advanced since the server (re)started; the harness keys its records by tick value, so one run never
+    /// covers a full 2^32 cycle
+    pub advanced: u64,
 }
 
 /// 8 secret bytes derived from the write id (high bit set in every byte), followed by padding.
@@ -190,6 +199,7 @@ impl Sim {
             next_val: 1,
             snap_struct: vec![BTreeMap::new(); n],
             snap_vals: BTreeMap::new(),
+            snap_seq: BTreeMap::new(),
             upd_sent: vec![BTreeSet::new(); n],
             last_update_sent: vec![0; n],
             last_u: vec![0; n],
@@ -223,7 +233,13 @@ impl Sim {
             drain_logs: false,
             last_from: BTreeMap::new(),
             from_log: Vec::new(),
+            need_first_tick: true,
+            next_jump: 1,
+            advanced: 0,
         };
+        if sim.cfg.start_tick != 0 && sim.cfg.policy == 0 {
+            sim.server.world_mut().resource_mut::<ServerTick>().increment_by(sim.cfg.start_tick);
+        }
         sim.warm_up();
         sim
     }
@@ -236,7 +252,7 @@ impl Sim {
             return;
         }
         for _ in 0..8 {
-            if self.tick() >= 1 {
+            if !self.need_first_tick && self.tick() != self.cfg.start_tick {
                 break;
             }
             self.server_frame(true);
@@ -420,15 +436,16 @@ impl Sim {
         }
     }
 
-    /// F17 exclusion: a descendant that clients may still believe hangs under `slot` is no longer a server descendant.
+    /// F17 exclusion: despawning `slot` (and, recursively, its present descendants) while some entity that survives is
+    /// still believed by clients to hang below one of them: the client's own recursive despawn would kill it.
     fn has_stale_child(&self, slot: usize) -> bool {
-        fn desc(par: &[Option<usize>], root: usize) -> BTreeSet<usize> {
-            let mut out = BTreeSet::new();
+        fn closure(par: &[Option<usize>], roots: &BTreeSet<usize>) -> BTreeSet<usize> {
+            let mut out = roots.clone();
             loop {
                 let before = out.len();
                 for s in 0..par.len() {
                     if let Some(p) = par[s] {
-                        if p == root || out.contains(&p) {
+                        if out.contains(&p) {
                             out.insert(s);
                         }
                     }
@@ -439,9 +456,9 @@ impl Sim {
             }
             out
         }
-        let believed = desc(&self.sent_parents, slot);
-        let actual = desc(&self.parents, slot);
-        believed.iter().any(|s| self.slots[*s].is_some() && !actual.contains(s))
+        let dying = closure(&self.parents, &[slot].into());
+        let believed = closure(&self.sent_parents, &dying);
+        believed.iter().any(|s| self.slots[*s].is_some() && !dying.contains(s))
     }
 
     fn entity_has_p(&self, slot: usize) -> bool {
@@ -451,6 +468,11 @@ impl Sim {
     pub fn connect(&mut self, i: usize) {
         if i >= self.clients.len() || self.clients[i].connected || !self.running {
             return;
+        }
+        // F15 (second form): a fresh client believes "update tick 0"; a server whose tick is 2^31 or more ahead of 0
+        // looks older than that to it. Only reachable with tick jumps.
+        if self.tick() >= (1 << 31) - (1 << 20) && !self.cfg.no_exclusions {
+            return self.exclude("F15_connect_when_server_tick_is_half_range_ahead_of_zero");
         }
         let max = self.cfg.max_size.get(i).copied().unwrap_or(1200);
         let id = self.server.world_mut().spawn(ConnectedClient { max_size: max }).id();
@@ -766,7 +788,7 @@ impl Sim {
                 }
                 self.op();
                 // (a tick-less frame is only possible once the first running frame has incremented the tick)
-                if gap && self.cfg.policy == 0 && self.tick() >= 1 {
+                if gap && self.cfg.policy == 0 && !self.need_first_tick {
                     // the mapping is registered in a later frame of the same tick window
                     self.flags.insert("prespawn_mapping_in_later_frame");
                     self.server_frame(false);
@@ -843,6 +865,52 @@ impl Sim {
                 });
             }
             Step::ServerFrame { tick } => self.server_frame(tick),
+            Step::TickJump { by } => {
+                if self.cfg.policy == 0 && self.running {
+                    self.next_jump = (by as u32).clamp(1, 200);
+                    if by >= 64 {
+                        self.flags.insert("tick_gap_ge_64");
+                    }
+                    self.server_frame(true);
+                }
+            }
+            Step::BigJump { fine } => {
+                if !self.cfg.big_jumps || self.cfg.policy != 0 || !self.running {
+                    return;
+                }
+                // every connected client must get an update message at the new tick: at least one replicated entity
+                // visible to all (the wrap profile runs without visibility lists)
+                if self.advanced + (1 << 30) + (1 << 22) >= (1u64 << 32) {
+                    return;
+                }
+                if self.cfg.vis != 0 || !(0..nslots).any(|s| self.slots[s].is_some() && self.marked[s] && !(self.cfg.periodic && self.entity_has_p(s))) {
+                    return;
+                }
+                for _ in 0..3 {
+                    self.lockstep_round();
+                }
+                // refresh: every replicated entity gets a structural change at the new tick, so every client-side
+                // confirmed tick, the update ticks and the trackers move along
+                self.next_jump = (1u32 << 30) - 64 + (fine as u32 % 128);
+                for slot in 0..nslots {
+                    if self.slots[slot].is_some() && self.marked[slot] {
+                        let has = self.slots[slot].is_some_and(|e| self.has_k(e, K::S));
+                        if self.cfg.periodic && self.entity_has_p(slot) {
+                            continue;
+                        }
+                        self.step(&if has { Step::Remove { slot, k: K::S } } else { Step::Insert { slot, k: K::S } });
+                    }
+                }
+                let before = self.tick();
+                self.server_frame(true);
+                if (self.tick() as u64) < before as u64 {
+                    self.flags.insert("crossed_tick_wrap");
+                }
+                self.flags.insert("big_jump");
+                for _ in 0..3 {
+                    self.lockstep_round();
+                }
+            }
             Step::ClientFrame { client } => {
                 if client < nclients && self.clients[client].connected {
                     self.client_frame(client);
@@ -1021,7 +1089,14 @@ impl Sim {
                 }
                 self.server.world_mut().resource_mut::<RepliconServer>().set_running(true);
                 self.running = true;
+                self.need_first_tick = true;
+                self.advanced = 0;
+                if self.cfg.start_tick != 0 && self.cfg.policy == 0 {
+                    let cur = self.tick();
+                    self.server.world_mut().resource_mut::<ServerTick>().increment_by(self.cfg.start_tick.wrapping_sub(cur));
+                }
                 self.snap_vals.clear();
+                self.snap_seq.clear();
                 self.locked.iter_mut().for_each(|l| *l = false);
                 self.sent_parents = self.parents.clone();
                 self.ops_since_tick = 0;
@@ -1230,9 +1305,14 @@ impl Sim {
         }
         let before = self.tick();
         // F15 exclusion: under the manual policy the first frame of a running server increments the tick.
-        let tick = self.running && self.cfg.policy == 0 && (tick || (before == 0 && !self.cfg.no_exclusions));
+        let tick = self.running && self.cfg.policy == 0 && (tick || (self.need_first_tick && !self.cfg.no_exclusions));
         if tick {
-            self.server.world_mut().resource_mut::<ServerTick>().increment();
+            let by = std::mem::replace(&mut self.next_jump, 1);
+            self.advanced += by as u64;
+            self.server.world_mut().resource_mut::<ServerTick>().increment_by(by);
+        }
+        if self.running {
+            self.need_first_tick = false;
         }
         crate::alloc::reset_max();
         let dbg = std::env::var("VH_ALLOC_BT").is_ok();
@@ -1420,6 +1500,8 @@ impl Sim {
         if views.len() >= 2 && views.windows(2).any(|w| w[0] != w[1]) && self.cfg.vis != 0 {
             self.flags.insert("clients_see_different_sets");
         }
+        let n = self.snap_seq.len() as u64;
+        self.snap_seq.insert(t, n);
         self.snap_vals.insert(t, vals);
     }
 
